@@ -1795,6 +1795,9 @@ def remove_redundant_transpose_pairs_ir(graph: ir.Graph) -> None:
                     ir.convenience.replace_all_uses_with(
                         t1_out, t1_in, replace_graph_outputs=True
                     )
+                    # The chain now runs in the un-transposed layout.
+                    for kept in allowed_nodes:
+                        _refresh_elementwise_output_shape(kept)
                     new_src = _node_output(last_allowed) or t1_in
                 else:
                     new_src = t1_in
